@@ -19,6 +19,9 @@ import (
 
 var ErrInjected = errors.New("memds: injected write fault")
 
+// ErrInjectedRead is what a Get refused by GetFault returns (a transient read error, NOT ds.ErrNotFound).
+var ErrInjectedRead = errors.New("memds: injected read fault")
+
 // Op is one key mutation; Val == nil means delete.
 type Op struct {
 	Key string
@@ -43,6 +46,8 @@ type Core struct {
 	// GetGateAfter, when set, is called after every Get has read its value (outside the lock): the caller
 	// is parked holding a possibly stale answer.
 	GetGateAfter func(key string, found bool)
+	// GetFault, when set, is consulted before every Get; returning true makes that Get fail with ErrInjectedRead.
+	GetFault func(key string) bool
 	// WriteGate, when set, is called before every atomic write (direct Put/Delete or batch commit) is applied.
 	WriteGate func(w Write)
 }
@@ -130,6 +135,9 @@ func (p *Plain) Get(_ context.Context, k ds.Key) ([]byte, error) {
 	if g := p.C.GetGate; g != nil {
 		g(k.String())
 	}
+	if f := p.C.GetFault; f != nil && f(k.String()) {
+		return nil, ErrInjectedRead
+	}
 	p.C.mu.Lock()
 	v, ok := p.C.m[k.String()]
 	p.C.mu.Unlock()
@@ -203,13 +211,25 @@ func (t *Txn) NewTransaction(_ context.Context, readOnly bool) (ds.Txn, error) {
 	if !readOnly {
 		return nil, errors.New("memds: only read-only transactions")
 	}
-	return &rtxn{snap: t.C.Snapshot()}, nil
+	return &rtxn{snap: t.C.Snapshot(), c: t.C}, nil
 }
 
-type rtxn struct{ snap map[string][]byte }
+type rtxn struct {
+	snap map[string][]byte
+	c    *Core
+}
 
 func (r *rtxn) Get(_ context.Context, k ds.Key) ([]byte, error) {
+	if g := r.c.GetGate; g != nil {
+		g(k.String())
+	}
+	if f := r.c.GetFault; f != nil && f(k.String()) {
+		return nil, ErrInjectedRead
+	}
 	v, ok := r.snap[k.String()]
+	if g := r.c.GetGateAfter; g != nil {
+		g(k.String(), ok)
+	}
 	if !ok {
 		return nil, ds.ErrNotFound
 	}
